@@ -9,6 +9,7 @@ import (
 	"go/ast"
 	"go/token"
 	"go/types"
+	"strings"
 
 	"golang.org/x/tools/go/cfg"
 )
@@ -19,6 +20,19 @@ type FuncCFG struct {
 	Body *ast.BlockStmt
 	G    *cfg.CFG
 	Name string
+	// helper expansion (see expand): blocks whose first node is an already expanded call, and
+	// the helpers that were expanded into this graph
+	expandedHead map[*cfg.Block]bool
+	Expanded     []string
+	regionOf     map[*cfg.Block]*region // nil entry = the analysed function itself
+}
+
+// region: one expanded call of a helper; the blocks copied from the callee belong to it.
+type region struct {
+	call   *ast.CallExpr
+	fd     *ast.FuncDecl
+	callPt Point // the call node in the caller (first node of the continuation block)
+	parent *region
 }
 
 // Point = position just before node I of block B (I == len(B.Nodes) means block end).
@@ -33,7 +47,11 @@ type Edge struct {
 }
 
 func newFuncCFG(p *Prog, info *types.Info, body *ast.BlockStmt, name string) *FuncCFG {
-	return &FuncCFG{P: p, Info: info, Body: body, G: cfg.New(body, mayReturn(info)), Name: name}
+	f := &FuncCFG{P: p, Info: info, Body: body, G: cfg.New(body, mayReturn(info)), Name: name, expandedHead: map[*cfg.Block]bool{}}
+	if expandHelpers {
+		f.expand(expandDepth, map[*types.Func]bool{})
+	}
+	return f
 }
 
 func (p *Prog) CFGOf(pkg, recv, name string) *FuncCFG {
@@ -61,11 +79,15 @@ func inspectNoLit(n ast.Node, f func(ast.Node) bool) {
 // Find returns the points of all block nodes that contain a sub-node matching pred.
 func (f *FuncCFG) Find(pred func(ast.Node) bool) []Point {
 	var out []Point
+	seenNode := map[ast.Node]bool{} // expansion can place one node in several blocks: report it once
 	for _, b := range f.G.Blocks {
 		if !b.Live {
 			continue
 		}
 		for i, n := range b.Nodes {
+			if seenNode[n] {
+				continue
+			}
 			hit := false
 			inspectNoLit(n, func(c ast.Node) bool {
 				if hit {
@@ -78,6 +100,7 @@ func (f *FuncCFG) Find(pred func(ast.Node) bool) []Point {
 				return true
 			})
 			if hit {
+				seenNode[n] = true
 				out = append(out, Point{b, i})
 			}
 		}
@@ -155,6 +178,9 @@ func (f *FuncCFG) reach(from Point, o *searchOpts, target func(pt Point, atExit 
 	for len(queue) > 0 {
 		it := queue[0]
 		queue = queue[1:]
+		if !it.b.Live {
+			continue
+		}
 		if !first || it.i == 0 {
 			if seen[it.b] {
 				continue
@@ -211,7 +237,7 @@ func (f *FuncCFG) PathToExitAvoiding(from Point, avoid func(ast.Node) bool) ([]s
 // avoid / edges matching avoidEdge?
 func (f *FuncCFG) PathFromEntryAvoiding(to Point, avoid func(ast.Node) bool, avoidEdge func(Edge) bool) ([]string, bool) {
 	return f.reach(f.entry(), &searchOpts{AvoidNode: avoid, AvoidEdge: avoidEdge}, func(pt Point, atExit bool) bool {
-		return !atExit && pt.B == to.B && pt.I == to.I
+		return !atExit && f.At(pt, to)
 	})
 }
 
@@ -466,13 +492,131 @@ func (f *FuncCFG) OnlyAfterSuccess(pt Point, call *ast.CallExpr) (witness []stri
 // callsIn returns all call expressions in the body (not inside literals) matching pred.
 func (f *FuncCFG) Calls(pred func(*ast.CallExpr) bool) []*ast.CallExpr {
 	var out []*ast.CallExpr
-	inspectNoLit(f.Body, func(n ast.Node) bool {
-		if c, ok := n.(*ast.CallExpr); ok && pred(c) {
-			out = append(out, c)
+	seen := map[*ast.CallExpr]bool{}
+	for _, b := range f.G.Blocks {
+		if !b.Live {
+			continue
 		}
-		return true
-	})
+		for _, nd := range b.Nodes {
+			inspectNoLit(nd, func(n ast.Node) bool {
+				if c, ok := n.(*ast.CallExpr); ok && !seen[c] && pred(c) {
+					seen[c] = true
+					out = append(out, c)
+				}
+				return true
+			})
+		}
+	}
 	return out
+}
+
+// paramArg: if obj is a parameter or the receiver of a helper that was expanded around pt, the
+// argument expression it stands for and the point of the call in the caller.
+func (f *FuncCFG) paramArg(obj types.Object, pt Point) (ast.Expr, Point, bool) {
+	for reg := f.regionOf[pt.B]; reg != nil; reg = reg.parent {
+		if reg.fd.Recv != nil && len(reg.fd.Recv.List) == 1 && len(reg.fd.Recv.List[0].Names) == 1 && f.Info.Defs[reg.fd.Recv.List[0].Names[0]] == obj {
+			if se, ok := ast.Unparen(reg.call.Fun).(*ast.SelectorExpr); ok {
+				return se.X, reg.callPt, true
+			}
+		}
+		i := 0
+		for _, fl := range reg.fd.Type.Params.List {
+			for _, nm := range fl.Names {
+				if f.Info.Defs[nm] == obj && i < len(reg.call.Args) {
+					return reg.call.Args[i], reg.callPt, true
+				}
+				i++
+			}
+		}
+	}
+	return nil, Point{}, false
+}
+
+// Resolve follows e (evaluated at pt) through the parameters of expanded helpers and through
+// single reaching definitions to the expression it stands for.
+func (f *FuncCFG) Resolve(e ast.Expr, pt Point) (ast.Expr, Point) {
+	for steps := 0; steps < 12; steps++ {
+		id, ok := ast.Unparen(e).(*ast.Ident)
+		if !ok {
+			break
+		}
+		obj := f.Info.Uses[id]
+		if obj == nil {
+			obj = f.Info.Defs[id]
+		}
+		if _, isVar := obj.(*types.Var); !isVar {
+			break
+		}
+		defs, fromEntry := f.ReachingDefs(pt, obj)
+		if len(defs) == 1 && !fromEntry {
+			if _, isCall := ast.Unparen(defs[0].Rhs).(*ast.CallExpr); isCall && !pureExpr(f.Info, defs[0].Rhs) {
+				// a value produced by a call: the call is what it stands for
+				return defs[0].Rhs, defs[0].At
+			}
+			e, pt = defs[0].Rhs, defs[0].At
+			continue
+		}
+		if len(defs) == 0 {
+			if arg, cpt, ok := f.paramArg(obj, pt); ok {
+				e, pt = arg, cpt
+				continue
+			}
+		}
+		break
+	}
+	return e, pt
+}
+
+// KeyAt is the canonical key of e with its identifiers resolved (Resolve, recursively) at pt:
+// two spellings of the same value through different temporaries, helper parameters or
+// single-expression helpers get the same key.
+func (f *FuncCFG) KeyAt(e ast.Expr, pt Point) string { return f.keyAt(e, pt, 6) }
+
+func (f *FuncCFG) keyAt(e ast.Expr, pt Point, depth int) string {
+	type saved struct {
+		n   ast.Node
+		old string
+	}
+	var restore []saved
+	var tmp []ast.Node
+	if depth > 0 {
+		ast.Inspect(e, func(n ast.Node) bool {
+			id, ok := n.(*ast.Ident)
+			if !ok {
+				return true
+			}
+			if _, isVar := f.Info.Uses[id].(*types.Var); !isVar {
+				return true
+			}
+			if old, has := keySubst[id]; has {
+				// a pure temporary (canon.go): resolve the identifiers of its defining expression too
+				if under, ok := astSubst[id]; ok {
+					k := f.keyAt(under, pt, depth-1)
+					if !strings.Contains(k, "?") && k != old {
+						keySubst[id] = k
+						restore = append(restore, saved{id, old})
+					}
+				}
+				return true
+			}
+			if re, rpt := f.Resolve(id, pt); re != ast.Expr(id) {
+				k := f.keyAt(re, rpt, depth-1)
+				if !strings.Contains(k, "?") {
+					keySubst[id] = k
+					tmp = append(tmp, id)
+				}
+			}
+			return true
+		})
+	}
+	k := exprKey(e)
+	for _, n := range tmp {
+		delete(keySubst, n)
+	}
+	for _, sv := range restore {
+		keySubst[sv.n] = sv.old
+	}
+	return k
 }
 
 // PointOf finds the block point whose node contains n.
@@ -673,4 +817,433 @@ func recvObj(info *types.Info, fd *ast.FuncDecl) types.Object {
 		return nil
 	}
 	return info.Defs[fd.Recv.List[0].Names[0]]
+}
+
+// loopInfo describes one loop of a function in CFG terms, independent of its source form
+// (range over slice/int/channel, three-clause for, while-style for).
+type loopInfo struct {
+	Head, Body, Done *cfg.Block
+	Stmt             ast.Stmt
+}
+
+// Loops returns the loops of the function (go/cfg marks loop heads by block kind).
+func (f *FuncCFG) Loops() []loopInfo {
+	var out []loopInfo
+	for _, b := range f.G.Blocks {
+		if !b.Live || (b.Kind != cfg.KindRangeLoop && b.Kind != cfg.KindForLoop) || len(b.Succs) == 0 {
+			continue
+		}
+		li := loopInfo{Head: b, Body: b.Succs[0], Stmt: b.Stmt}
+		if len(b.Succs) > 1 {
+			li.Done = b.Succs[1]
+		}
+		out = append(out, li)
+	}
+	return out
+}
+
+// InLoopBody reports whether pt can be reached from the loop's body entry without passing the
+// loop head again (i.e. it belongs to one iteration of the loop).
+func (f *FuncCFG) InLoopBody(l loopInfo, pt Point) bool {
+	_, found := f.reach(Point{l.Body, 0}, &searchOpts{AvoidEdge: func(e Edge) bool { return e.From.Succs[e.Succ] == l.Head }}, func(q Point, atExit bool) bool {
+		return !atExit && f.At(q, pt)
+	})
+	return found
+}
+
+// IterationSkips: is there a path through one iteration (from the body entry back to the loop
+// head, or out of the function) that avoids every node matching `must`?
+func (f *FuncCFG) IterationSkips(l loopInfo, must func(ast.Node) bool) ([]string, bool) {
+	return f.reachBlock(Point{l.Body, 0}, &searchOpts{AvoidNode: must}, func(b *cfg.Block) bool { return b == l.Head })
+}
+
+// reachBlock is reach with a target on blocks (entered from a predecessor) or function exits.
+func (f *FuncCFG) reachBlock(from Point, o *searchOpts, target func(b *cfg.Block) bool) ([]string, bool) {
+	type item struct {
+		b    *cfg.Block
+		i    int
+		path []string
+	}
+	seen := map[*cfg.Block]bool{}
+	queue := []item{{from.B, from.I, nil}}
+	first := true
+	for len(queue) > 0 {
+		it := queue[0]
+		queue = queue[1:]
+		if !it.b.Live {
+			continue
+		}
+		if !first && target(it.b) {
+			return append(it.path, fmt.Sprintf("block %s", it.b.Kind)), true
+		}
+		if !first || it.i == 0 {
+			if seen[it.b] {
+				continue
+			}
+			seen[it.b] = true
+		}
+		first = false
+		blocked := false
+		for i := it.i; i < len(it.b.Nodes); i++ {
+			if f.nodeBlocked(it.b.Nodes[i], o) {
+				blocked = true
+				break
+			}
+		}
+		if blocked {
+			continue
+		}
+		path := it.path
+		if len(it.b.Nodes) > 0 {
+			path = append(append([]string{}, path...), fmt.Sprintf("%s (%s)", f.P.posStr(it.b.Nodes[0].Pos()), it.b.Kind))
+		}
+		if f.isExitBlock(it.b) {
+			return append(path, "exit"), true
+		}
+		for si, s := range it.b.Succs {
+			if o != nil && o.AvoidEdge != nil && o.AvoidEdge(Edge{it.b, si}) {
+				continue
+			}
+			queue = append(queue, item{s, 0, path})
+		}
+	}
+	return nil, false
+}
+
+// ---- helper expansion ----------------------------------------------------------------------
+//
+// A path rule must not depend on whether a piece of a function lives in the function itself or
+// in an unexported helper of the same package: extracting a helper and inlining one are the most
+// common behaviour-preserving edits. Every FuncCFG is therefore built with the statement-level
+// calls of unexported same-package functions and methods expanded in place (bounded depth, no
+// recursion): the block is split before the call, a fresh copy of the callee's graph is linked
+// in, and the callee's returns continue at the call node, which stays in the graph (so its
+// results can still be followed). The callee's ReturnStmt nodes are replaced by their result
+// expressions: in the expanded graph a ReturnStmt always leaves the analysed function.
+
+var expandHelpers = true
+
+const expandDepth = 3
+
+// only small helpers are expanded: the extracted piece of a function, not the package's machinery
+const expandMaxStmts = 30
+
+func stmtCount(b *ast.BlockStmt) int {
+	n := 0
+	ast.Inspect(b, func(x ast.Node) bool {
+		if _, ok := x.(ast.Stmt); ok {
+			n++
+		}
+		return true
+	})
+	return n
+}
+
+// newFuncCFGPlain builds the graph of the body alone (rules that visit every function of a
+// package anyway and must see each site once).
+func newFuncCFGPlain(p *Prog, info *types.Info, body *ast.BlockStmt, name string) *FuncCFG {
+	return &FuncCFG{P: p, Info: info, Body: body, G: cfg.New(body, mayReturn(info)), Name: name, expandedHead: map[*cfg.Block]bool{}}
+}
+
+type declIndex struct {
+	byFunc map[*types.Func]*ast.FuncDecl
+	infoOf map[*ast.FuncDecl]*types.Info
+}
+
+func (p *Prog) decls() *declIndex {
+	if p.declIdx != nil {
+		return p.declIdx
+	}
+	di := &declIndex{byFunc: map[*types.Func]*ast.FuncDecl{}, infoOf: map[*ast.FuncDecl]*types.Info{}}
+	for _, pk := range p.Pkgs {
+		if pk.TypesInfo == nil || len(pk.Syntax) == 0 {
+			continue
+		}
+		for _, file := range pk.Syntax {
+			for _, d := range file.Decls {
+				if fd, ok := d.(*ast.FuncDecl); ok && fd.Body != nil {
+					if fn, ok := pk.TypesInfo.Defs[fd.Name].(*types.Func); ok {
+						di.byFunc[fn] = fd
+						di.infoOf[fd] = pk.TypesInfo
+					}
+				}
+			}
+		}
+	}
+	p.declIdx = di
+	return di
+}
+
+// stmtLevelCall returns the call of a node of one of the forms  f(...)  |  x, y := f(...)  |
+// x = f(...)  |  return f(...)  |  var x = f(...) .
+func stmtLevelCall(n ast.Node) *ast.CallExpr {
+	var e ast.Expr
+	switch x := n.(type) {
+	case *ast.ExprStmt:
+		e = x.X
+	case *ast.AssignStmt:
+		if len(x.Rhs) == 1 {
+			e = x.Rhs[0]
+		}
+	case *ast.ReturnStmt:
+		if len(x.Results) == 1 {
+			e = x.Results[0]
+		}
+	case *ast.ValueSpec:
+		if len(x.Values) == 1 {
+			e = x.Values[0]
+		}
+	}
+	if e == nil {
+		return nil
+	}
+	c, _ := ast.Unparen(e).(*ast.CallExpr)
+	return c
+}
+
+func (f *FuncCFG) expand(depth int, onStack map[*types.Func]bool) {
+	if depth <= 0 || f.P == nil {
+		return
+	}
+	di := f.P.decls()
+	work := append([]*cfg.Block{}, f.G.Blocks...)
+	for len(work) > 0 {
+		b := work[0]
+		work = work[1:]
+		if !b.Live {
+			continue
+		}
+		start := 0
+		if f.expandedHead[b] {
+			start = 1 // node 0 is a call that has been expanded already
+		}
+		for i := start; i < len(b.Nodes); i++ {
+			call := stmtLevelCall(b.Nodes[i])
+			if call == nil {
+				continue
+			}
+			fn := staticCallee(f.Info, call)
+			if fn == nil {
+				continue
+			}
+			fn = fn.Origin()
+			fd := di.byFunc[fn]
+			if fd == nil || fd.Name.IsExported() || onStack[fn] || di.infoOf[fd] != f.Info {
+				continue
+			}
+			if fd.Body == f.Body || stmtCount(fd.Body) > expandMaxStmts {
+				continue // direct recursion, or not a small helper
+			}
+			sub := &FuncCFG{P: f.P, Info: f.Info, Body: fd.Body, G: cfg.New(fd.Body, mayReturn(f.Info)), Name: f.Name, expandedHead: map[*cfg.Block]bool{}}
+			st := map[*types.Func]bool{fn: true}
+			for k := range onStack {
+				st[k] = true
+			}
+			sub.expand(depth-1, st)
+			// split b before the call
+			tail := &cfg.Block{Nodes: b.Nodes[i:], Succs: b.Succs, Kind: b.Kind, Live: true, Stmt: b.Stmt}
+			f.expandedHead[tail] = true
+			if f.regionOf == nil {
+				f.regionOf = map[*cfg.Block]*region{}
+			}
+			f.regionOf[tail] = f.regionOf[b]
+			reg := &region{call: call, fd: fd, callPt: Point{tail, 0}, parent: f.regionOf[b]}
+			b.Nodes = b.Nodes[:i:i]
+			entry := sub.G.Blocks[0]
+			b.Succs = []*cfg.Block{entry}
+			// error correlation: if the continuation is `err := helper(...)` followed at once by the
+			// nil test of that error, a return of the helper that is known to hand back a non-nil
+			// (nil) error continues on the failure (success) branch only. Without this, the expanded
+			// graph would contain the infeasible path "helper failed, caller saw no error".
+			var tailOK, tailFail *cfg.Block
+			if len(tail.Nodes) == 2 && len(tail.Succs) == 2 {
+				if cond, isExpr := tail.Nodes[1].(ast.Expr); isExpr {
+					if x, nonNilOnTrue, isTest := nilTest(f.Info, cond); isTest {
+						if as, isAs := tail.Nodes[0].(*ast.AssignStmt); isAs && len(as.Lhs) >= 1 && objOfIdent(f.Info, as.Lhs[len(as.Lhs)-1]) != nil && objOfIdent(f.Info, as.Lhs[len(as.Lhs)-1]) == objOfIdent(f.Info, x) {
+							sink := &cfg.Block{Kind: cfg.KindUnreachable, Live: false}
+							okSucc, failSucc := tail.Succs[1], tail.Succs[0]
+							if !nonNilOnTrue {
+								okSucc, failSucc = tail.Succs[0], tail.Succs[1]
+							}
+							mk := func(ok bool) *cfg.Block {
+								nb := &cfg.Block{Nodes: tail.Nodes, Kind: tail.Kind, Live: true, Stmt: tail.Stmt}
+								t, fl := sink, sink // successor on the true / false edge of the test
+								switch {
+								case ok && nonNilOnTrue:
+									fl = okSucc
+								case ok && !nonNilOnTrue:
+									t = okSucc
+								case !ok && nonNilOnTrue:
+									t = failSucc
+								default:
+									fl = failSucc
+								}
+								nb.Succs = []*cfg.Block{t, fl}
+								f.expandedHead[nb] = true
+								f.regionOf[nb] = f.regionOf[b]
+								return nb
+							}
+							tailOK, tailFail = mk(true), mk(false)
+							f.G.Blocks = append(f.G.Blocks, tailOK, tailFail, sink)
+						}
+					}
+				}
+			}
+			contFor := func(sub *FuncCFG, cb *cfg.Block, rs *ast.ReturnStmt) *cfg.Block {
+				if tailOK == nil || len(rs.Results) == 0 {
+					return tail
+				}
+				last := rs.Results[len(rs.Results)-1]
+				if !types.Identical(f.Info.TypeOf(last), errorType) && !isNil(f.Info, last) {
+					return tail
+				}
+				switch {
+				case isNil(f.Info, last):
+					return tailOK
+				case func() bool {
+					c, ok := ast.Unparen(last).(*ast.CallExpr)
+					return ok && isErrorConstructor(calleeShort(f.Info, c))
+				}():
+					return tailFail
+				}
+				if v := objOfIdent(f.Info, last); v != nil {
+					var failEdges []Edge
+					sub.forEachEdgeFact(func(e Edge, _ *cfg.Block, ft fact) {
+						if x, nonNilOnTrue, ok := nilTest(f.Info, ft.Atom); ok && objOfIdent(f.Info, x) == v && nonNilOnTrue == ft.Pol {
+							failEdges = append(failEdges, e)
+						}
+					})
+					if len(failEdges) > 0 {
+						if _, only := sub.OnlyThroughEdges(Point{cb, len(cb.Nodes) - 1}, failEdges); only {
+							return tailFail
+						}
+					}
+				}
+				return tail
+			}
+			// classify the returns before the callee graph is rewired
+			cont := map[*cfg.Block]*cfg.Block{}
+			for _, cb := range sub.G.Blocks {
+				if cb.Live && len(cb.Succs) == 0 && len(cb.Nodes) > 0 {
+					if rs, ok := cb.Nodes[len(cb.Nodes)-1].(*ast.ReturnStmt); ok {
+						cont[cb] = contFor(sub, cb, rs)
+					}
+				}
+			}
+			for _, cb := range sub.G.Blocks {
+				if !cb.Live {
+					continue
+				}
+				if len(cb.Succs) == 0 {
+					if k := len(cb.Nodes); k > 0 {
+						if rs, ok := cb.Nodes[k-1].(*ast.ReturnStmt); ok {
+							nodes := append([]ast.Node{}, cb.Nodes[:k-1]...)
+							for _, res := range rs.Results {
+								nodes = append(nodes, res)
+							}
+							cb.Nodes = nodes
+							cb.Succs = []*cfg.Block{cont[cb]}
+						} else if sub.isExitBlock(cb) {
+							cb.Succs = []*cfg.Block{tail}
+						}
+					} else if sub.isExitBlock(cb) {
+						cb.Succs = []*cfg.Block{tail}
+					}
+				}
+				if sub.expandedHead[cb] {
+					f.expandedHead[cb] = true
+				}
+				if inner := sub.regionOf[cb]; inner != nil {
+					// a region of a nested expansion: hook its root under reg
+					root := inner
+					for root.parent != nil {
+						root = root.parent
+					}
+					if root != reg {
+						root.parent = reg
+					}
+					f.regionOf[cb] = inner
+				} else {
+					f.regionOf[cb] = reg
+				}
+				f.G.Blocks = append(f.G.Blocks, cb)
+			}
+			tailUsed := false
+			for _, cb := range sub.G.Blocks {
+				for _, sc := range cb.Succs {
+					if sc == tail {
+						tailUsed = true
+					}
+				}
+			}
+			if !tailUsed && tailOK != nil {
+				tail.Live = false
+			}
+			f.G.Blocks = append(f.G.Blocks, tail)
+			f.Expanded = append(f.Expanded, funcKeyOf(fn))
+			work = append(work, tail)
+			break
+		}
+	}
+	for i, b := range f.G.Blocks {
+		b.Index = int32(i)
+	}
+}
+
+func funcKeyOf(fn *types.Func) string {
+	if rt := namedOfRecv(fn); rt != nil {
+		return rt.Obj().Name() + "." + fn.Name()
+	}
+	return fn.Name()
+}
+
+// ErrEdgesDeep: like ErrEdges, but when the call sits in an expanded helper that hands its error
+// up (the error is not tested inside the helper), the test of the enclosing helper call counts:
+// success/failure of `if err := s.writeMark(v); err != nil` decides store.Set inside writeMark.
+func (f *FuncCFG) ErrEdgesDeep(call *ast.CallExpr) (success, failure []Edge) {
+	success, failure = f.ErrEdges(call)
+	if len(success)+len(failure) > 0 {
+		return
+	}
+	pt, ok := f.PointOf(call)
+	if !ok {
+		return
+	}
+	for reg := f.regionOf[pt.B]; reg != nil; reg = reg.parent {
+		success, failure = f.ErrEdges(reg.call)
+		if len(success)+len(failure) > 0 {
+			return
+		}
+	}
+	return
+}
+
+// At: does point a denote the same program point as b? Expansion can place one statement in
+// several blocks (the continuation after a helper call is split by the helper's outcome).
+func (f *FuncCFG) At(a, b Point) bool {
+	if a == b {
+		return true
+	}
+	na, nb := f.nodeAt(a), f.nodeAt(b)
+	return na != nil && na == nb
+}
+
+// Reachable: can pt be reached from the function entry at all? (after helper expansion with
+// error correlation some statements are dead, e.g. the failure branch after a helper that
+// always returns nil)
+func (f *FuncCFG) Reachable(pt Point) bool {
+	_, found := f.PathFromEntryAvoiding(pt, nil, nil)
+	return found
+}
+
+// FindOwn is Find restricted to the statements of the analysed function itself (not those of
+// expanded helpers).
+func (f *FuncCFG) FindOwn(pred func(ast.Node) bool) []Point {
+	var out []Point
+	for _, pt := range f.Find(pred) {
+		if f.regionOf[pt.B] == nil {
+			out = append(out, pt)
+		}
+	}
+	return out
 }
